@@ -238,8 +238,9 @@ Definition apply (w : world) (o : op) : world :=
         let b := {| s_core := sign (p_label k) T_SUBKEY_BINDING t None false (flags_info flags) (OnSub (p_label k) label);
                     s_emb := emb |} in
         let sk := {| sk_label := label; sk_public := false; sk_cansign := cansign;
-                     sk_sigs := if ok then key_or_sig [] b else [] |} in
-        set_key ob (with_subs k (sub_set sk (p_subs k))))
+                     sk_sigs := key_or_sig [] b |} in
+        (* repair 163b208: when the binding signature is refused the attachment is undone (before: the subkey stayed, unbound) *)
+        if ok then set_key ob (with_subs k (sub_set sk (p_subs k))) else ob)
   | ORevokeSubkey i label t =>
     upd w i (fun ob =>
       let k := o_key ob in
